@@ -536,13 +536,16 @@ def run_unit(unit, tier='quick', keep_dir=None):
     finally:
         res.wall_s = time.time() - t0
         if keep_dir:
+            # verifier output is kept only for units that did not pass (a full run of all checks would otherwise leave
+            # 8 GB of logs behind), and only files of moderate size
             try:
                 dst = os.path.join(keep_dir, re.sub(r'[^A-Za-z0-9_.-]', '_', unit.name))
                 shutil.rmtree(dst, ignore_errors=True)
-                os.makedirs(dst, exist_ok=True)
-                for fn_ in os.listdir(wd):
-                    if fn_.endswith('.json') and os.path.getsize(os.path.join(wd, fn_)) < 20_000_000:
-                        shutil.copy(os.path.join(wd, fn_), dst)
+                if res.status != 'ok':
+                    os.makedirs(dst, exist_ok=True)
+                    for fn_ in os.listdir(wd):
+                        if fn_.endswith('.json') and os.path.getsize(os.path.join(wd, fn_)) < 5_000_000:
+                            shutil.copy(os.path.join(wd, fn_), dst)
             except Exception:
                 pass
         shutil.rmtree(wd, ignore_errors=True)
